@@ -12,6 +12,8 @@ pub struct PipeState {
     /// per-read caps: element c => at most c+1 bytes; exhausted => unbounded
     pub rsched: Vec<usize>,
     pub ridx: usize,
+    /// cap for every read once the schedule is exhausted (0: unbounded)
+    pub rcap: usize,
     /// bytes the client wrote
     pub outbox: Vec<u8>,
     /// per-write actions: Some(k) => accept at most k bytes, None => fail; exhausted => accept all
@@ -66,7 +68,7 @@ impl Read for Pipe {
         let mut cap = buf.len();
         if s.ridx < s.rsched.len() {
             cap = cap.min(s.rsched[s.ridx] + 1);
-        }
+        } else if s.rcap > 0 { cap = cap.min(s.rcap); }
         s.ridx += 1;
         let avail = s.inbox.len() - s.pos;
         let n = cap.min(avail);
